@@ -15,7 +15,7 @@ RULE = ("abstract cues (1-3 per document, 1-3 lines each, each line 1-4 runs of 
         "an entity, line-break markup variants, wrapping of text over indented source lines "
         "(DFXP, SAMI), inline markup around runs (DFXP span with/without styling, nested; SAMI "
         "i/b/u/span/font; WebVTT i/b/u/c.cls/ruby+rt/lang tags, timestamp tags in both spellings ([hh+:]mm:ss.ttt), voice tags, unknown "
-        "tags from a pool that shares first letters with known tags). Expected display text = "
+        "tags from a pool that shares first letters with known tags or consists of a known name followed by - : _ or a digit, with or without their end tags). Expected display text = "
         "concatenated authored runs (voice -> 'Name: ' prefix, unknown tag -> literal), compared "
         "per line after trimming and collapsing whitespace. Non-trivial: the document contains "
         "an entity or look-alike, a source-line wrap, or a tag. "
@@ -24,7 +24,8 @@ RULE = ("abstract cues (1-3 per document, 1-3 lines each, each line 1-4 runs of 
         "Runs are separated by nothing, a blank or a source-line wrap (with / without blanks or "
         "tabs before the line end); HTML named entities come from the full HTML 4 table (252 "
         "names, incl. pairs that differ only in case); SRT / WebVTT / MicroDVD lines end in LF, "
-        "CRLF or bare CR. ")
+        "CRLF or bare CR. DFXP runs may be spelled as CDATA sections (whole run or its second "
+        "half), which may themselves run over several source lines. ")
 ASSUMPTIONS = [
     "raw '<' or '&' is never emitted in XML/HTML/WebVTT text (documents are well-formed)",
     "texts avoid '<html' and 'no closed captioning available' (SAMIReader rejects those by "
@@ -112,7 +113,11 @@ def dfxp_strategy(tier):
         if "]]>" not in text and draw(st.integers(0, 7)) == 0:
             # the same characters, spelled as a CDATA section (whole run or its second half)
             k = draw(st.sampled_from([0, len(text) // 2]))
-            enc = _encode(text[:k], draw, _XML_NAMED, "<&") + "<![CDATA[" + text[k:] + "]]>"
+            inner = text[k:]
+            if draw(st.integers(0, 2)) == 0:
+                # a CDATA section may run over several source lines like any other text
+                inner, wrapped = _wrap(inner, draw)
+            enc = _encode(text[:k], draw, _XML_NAMED, "<&") + "<![CDATA[" + inner + "]]>"
             cdata = True
         elif draw(st.integers(0, 3)) == 0:
             enc, wrapped = _wrap(enc, draw)
@@ -349,7 +354,10 @@ def check_sami(case, rec):
 # ------------------------------------------------------------------ WebVTT
 
 _VTT_NAMED = {"<": "lt", ">": "gt", "&": "amp", "\u00a0": "nbsp"}
-UNKNOWN_PREFIX = ["bar", "input", "center", "video", "u2", "cite", "break", "vv"]
+UNKNOWN_PREFIX = ["bar", "input", "center", "video", "u2", "cite", "break", "vv",
+                  # a known tag name followed by something that is neither a blank nor a '.'
+                  "c-3po", "i-beam", "b:x", "u-turn", "ruby-text", "lang-en", "v-x", "rt:1", "c_x",
+                  "i18n", "b-", "u:"]
 UNKNOWN_OTHER = ["foo", "x", "LAUGHING", "para", "font", "1", "span", "div"]
 
 
@@ -389,6 +397,9 @@ def webvtt_strategy(tier):
             lit = f"<{nm}>"
             enc = lit + enc
             exp = lit + text
+            if draw(st.integers(0, 2)) == 0:       # with its (equally unknown) end tag
+                enc += f"</{nm}>"
+                exp += f"</{nm}>"
         elif tag == "nested":
             enc = f"<i><b>{enc}</b></i>"
         return {"text": exp, "enc": enc, "tag": tag}
